@@ -350,6 +350,148 @@ def p8(led, rid, ctx):
                   "overflows (full proofs)" % var)
 
 
+def p9(led, rid, ctx):
+    """TABLE: a predicate over a reification literal b (domain 0..1) is replaced by the reified
+    predicate exactly when it says b = 1, and by its negation exactly when it says b = 0"""
+    from ..predalg import ev, holds, feasible, Unknown, is_pred_adt
+    from .predrules import _field
+    lib = ctx.lib
+    f = lib.method("ProofLiterals", "get_underlying_predicate")
+    R = resolver(f)
+    n = 0
+    for g in [f] + list(f.closures):
+        # which captured values are the right-hand side of the predicate
+        rhs_caps = set()
+        if g is not f:
+            for b in f.blocks:
+                for s in b["stmts"]:
+                    if s["s"] == "assign" and s["rv"]["r"] == "closure" and s["rv"]["def"] == g.defn:
+                        e = R.rvalue(s["rv"])
+                        for i, cap in enumerate(e.b):
+                            if any(c.name == "get_right_hand_side" for c in cap.calls()):
+                                rhs_caps.add("*arg1.%d" % i)
+        paths = SymExec(g).run()
+        for p in paths:
+            if p.diverged or p.ret is None:
+                continue
+            var = None
+            for cond, val, others in p.conds:
+                if cond.k == "discr" and is_pred_adt(cond.b):
+                    var = variant_name(g, cond, val, others)
+            r = peel(p.ret, calls=None)
+            if r.k == "call" and r.a.name == "not":
+                got = "neg"
+            elif r.k in ("proj", "arg", "local") or (r.k == "call" and r.a.name in ("clone", "copied")):
+                got = "pos"
+            else:
+                continue      # the outer function: Option plumbing
+            variants = [var] if var else ["LowerBound", "UpperBound", "NotEqual", "Equal"]
+            bad = None
+            for v in variants:
+                for c in (-1, 0, 1, 2):
+                    def leaf(e, c=c):
+                        fl = _field(e)
+                        if fl is not None and fl[2] != "domain_id":
+                            return c
+                        if show(e) in rhs_caps:
+                            return c
+                        if e.k == "call" and e.a.name == "get_right_hand_side":
+                            return c
+                        return None
+                    if not feasible(p.conds, leaf):
+                        continue
+                    t1, t0 = holds(v, c, 1), holds(v, c, 0)
+                    if got == "pos" and not (t1 and not t0):
+                        bad = ("[b %s %d] is replaced by the reified predicate although it %s" %
+                               (v, c, "holds for b = 0" if t0 else "does not hold for b = 1"))
+                    if got == "neg" and not (t0 and not t1):
+                        bad = ("[b %s %d] is replaced by the negated reified predicate although it %s" %
+                               (v, c, "holds for b = 1" if t1 else "does not hold for b = 0"))
+                    if bad:
+                        break
+                if bad:
+                    break
+            n += 1
+            led.check(bad is None, rid, "polarity:%s->%s" % (var or "any", got), g.span,
+                      "polarity agrees with the truth of the predicate on {0,1}",
+                      "get_underlying_predicate: %s: the proof states the opposite literal" % bad)
+    led.floor(rid, "polarity rows", n, 2)
+
+
+SELECTING = ("filter", "filter_map", "skip", "take", "skip_while", "take_while", "step_by", "retain",
+             "dedup", "truncate")
+
+
+def p10(led, rid, ctx):
+    """the premises handed to log_inference are the complete explanation: no selecting adaptor"""
+    lib = ctx.lib
+    n = 0
+    for f in lib.fns.values():
+        if "/tests" in f.file or f.name == "log_inference":
+            continue
+        for c in f.calls:
+            if c.name != "log_inference" or len(c.args) < 3:
+                continue
+            n += 1
+            R = resolver(f)
+            e = R.operand(c.args[2])
+            sel = [x.a.name for x in e.walk() if x.k == "call" and x.a.name in SELECTING]
+            # a premise vector that is trimmed in place before it is logged
+            trimmed = []
+            for x in e.walk():
+                if x.k in ("local", "phi"):
+                    l = x.a if x.k == "local" else x.b
+                    for c2 in f.calls:
+                        if c2.name in SELECTING and c2.args and f.cfg.reaches(c2.bb, [c.bb], strict=False):
+                            from ..flow import root_local
+                            if root_local(f, c2.args[0]) == l:
+                                trimmed.append(c2.name)
+            who = (f.parent or f.defn).rsplit("::", 1)[-1] if f.kind == "Closure" else f.name
+            led.check(not sel and not trimmed, rid, "%s:premises-complete" % who, c.span,
+                      "premises are the explanation as computed",
+                      "%s logs an inference whose premises went through `%s`: the logged step claims "
+                      "more than the propagator explained, and need not follow from the tagged "
+                      "constraint alone" % (who, (sel + trimmed)[0] if (sel + trimmed) else ""))
+    led.floor(rid, "log_inference call sites", n, 5)
+
+
+def p11(led, rid, ctx):
+    """a tagged batch of root propagations starts at the trail length read after the previous
+    propagator finished: on every way round the propagation loop the length is read again"""
+    lib = ctx.lib
+    n = 0
+    for f in lib.fns.values():
+        if "/tests" in f.file:
+            continue
+        for c in f.calls_named("log_root_propagation_to_proof"):
+            R = resolver(f)
+            tag = R.operand(c.args[2]) if len(c.args) > 2 else None
+            if tag is None or not any(x.name == "get_tag" for x in tag.calls()):
+                continue
+            n += 1
+            start = peel(R.operand(c.args[1]), calls=None)
+            reads = [x.a for x in start.walk() if x.k == "call" and x.a.name == "num_trail_entries"]
+            disp = [d for d in f.calls if d.name == "propagate" and d.trait and not d.callee.get("local")] or \
+                   [d for d in f.calls if d.name == "propagate" and d.trait]
+            ok = bool(reads) and bool(disp)
+            why = "does not start at a trail length read in this function"
+            if ok:
+                rd = reads[0]
+                for d in disp:
+                    if not f.cfg.dominates(rd.bb, d.bb):
+                        ok, why = False, "reads the trail length on a path that does not lead to the propagator call"
+                    elif f.cfg.reaches(d.bb, [d.bb], avoid=[rd.bb], strict=True):
+                        ok, why = False, ("starts at a trail length that is not read again between two "
+                                          "propagator calls: the facts of the earlier propagators are logged "
+                                          "again under this propagator's constraint tag")
+                    elif not f.cfg.dominates(d.bb, c.bb):
+                        ok, why = False, "is not preceded by the propagator call on every path"
+            led.check(ok, rid, "%s:tagged-batch-start" % f.name, c.span,
+                      "start index read per iteration, before the propagator runs",
+                      "%s: the tagged root-propagation batch %s" % (f.name, why))
+    led.floor(rid, "tagged root-propagation batches", n, 1)
+
+
 def run(ctx, led):
     run_rule(led, "P1", "every reason that is computed for use is logged as an inference (MUST-PASS)", p1, ctx)
     run_rule(led, "P2", "complete_proof logs the conflict, finalises, and ends with the empty nogood", p2, ctx)
@@ -361,3 +503,6 @@ def run(ctx, led):
     run_rule(led, "P6", "both conclusions write the literal definitions", p6, ctx)
     run_rule(led, "P7", "populate/lookup guard agreement for the unit-nogood step ids", p7, ctx)
     run_rule(led, "P8", "the trail position of a composite predicate combines both bound updates", p8, ctx)
+    run_rule(led, "P9", "polarity TABLE of predicates over reification literals (decided on the domain {0,1})", p9, ctx)
+    run_rule(led, "P10", "the premises of every logged inference are the complete explanation (no selecting adaptor between the explanation and log_inference)", p10, ctx)
+    run_rule(led, "P11", "tagged root-propagation batches start at a trail length read after the previous propagator (MUST-PASS on the loop)", p11, ctx)
